@@ -274,6 +274,12 @@ def main(argv=None):
             lines.append('  key=%s :: %s' % (key, v['msg'][:600]))
             rc = 1
 
+    # every listed finding gets its line; one that this tier's bounds did not reach says so
+    for key in sorted(known):
+        if key not in viol and not args.only:
+            lines.append('KNOWN-FINDING: property=%s %s [%s] (listed; outside the bounds of the %s tier, not re-observed in this run)'
+                         % (prop, known[key].get('what', key), key, args.tier))
+
     # vacuity guard
     req = getattr(_mod, 'REQUIRED_FLAGS', {})
     vac = [(f, n, tot.flags.get(f, 0)) for f, n in req.items() if tot.flags.get(f, 0) < n]
